@@ -84,7 +84,9 @@ bool check_cast(vf::Ctx& c, GridIndexMapping<S, DIM>& g, const Eigen::Matrix<S, 
     P cee = cell_centre<S, DIM>(g, gc, ie);
     for (size_t d = 0; d < DIM; ++d) {
       if (fabsl((long double)e[d] - ce[d]) > (long double)res / 2 + tol) inside = false;
-      if (fabsl(fabsl((long double)e[d] - cee[d]) - (long double)res / 2) <= tol) nearBorder = true;
+      // which cell the end point belongs to is decided by ONE computeCellIndexes() call, not by the accumulated traversal: the end point is
+      // "near a border" only within a few ulp of it, whatever the length of the ray (the traversal is masked on the end indexes, so it must stop there)
+      if (fabsl(fabsl((long double)e[d] - cee[d]) - (long double)res / 2) <= 8 * (long double)ulp<S>((S)maxc)) nearBorder = true;
     }
     if (!inside || (!nearBorder && ray.back() != ie)) { c.violation("RayCasting.cast.lastCell", params(), vf::JO().raw("got", ix<DIM>(ray.back())).raw("end_cell", ix<DIM>(ie)).b("end_near_border", nearBorder).done()); return false; }
   }
